@@ -33,15 +33,26 @@ def parse_layout_src(repo="/repo"):
                 # the observed layouts decide, and the evidence records the assumption
                 fields.append("PhantomData")
                 unknown.append("%s.%s" % (name, ty))
-        return fields, bool(re.search(r"#\[repr\(C\)\]", attrs))
+        reprs = [x.strip() for m_ in re.finditer(r"#\[repr\(([^\]]*)\)\]", attrs) for x in re.split(r",(?![^()]*\))", m_.group(1))]
+        pack = algn = 0
+        for x in reprs:
+            mm = re.fullmatch(r"packed(?:\((\d+)\))?", x)
+            if mm:
+                pack = int(mm.group(1) or 1)
+            mm = re.fullmatch(r"align\((\d+)\)", x)
+            if mm:
+                algn = int(mm.group(1))
+        mods[name] = {"pack": pack, "align": algn, "repr": reprs}
+        return fields, "C" in reprs
 
+    mods = {}
     even, even_c = struct("GenericArrayImplEven")
     odd, odd_c = struct("GenericArrayImplOdd")
     m = re.search(r"unsafe impl ArrayLength for UTerm \{.*?type ArrayType<T> = (.+?);\s*\n", src, re.S)
     base = m.group(1).strip() if m else "?"
     m = re.search(r"((?:\s*#\[[^\]]*\]\s*|\s*///[^\n]*\n)*)\s*pub struct GenericArray<T, N: ArrayLength>", src)
     transparent = bool(m and "repr(transparent)" in m.group(1))
-    return {"unknown_fields": unknown, "even": even, "odd": odd, "even_repr_c": even_c, "odd_repr_c": odd_c, "base": base, "transparent": transparent}
+    return {"mods": mods, "unknown_fields": unknown, "even": even, "odd": odd, "even_repr_c": even_c, "odd_repr_c": odd_c, "base": base, "transparent": transparent}
 
 
 def write_layout_src(info, path):
@@ -58,6 +69,12 @@ EvenReprC == %s
 OddReprC == %s
 BaseIsZeroLenArray == %s
 WrapperTransparent == %s
+\\* repr modifiers of the two node structs: packed(k) (0: none) and align(k) (0: none)
+EvenPack == %d
+OddPack == %d
+EvenAlign == %d
+OddAlign == %d
 =============================================================================
-""" % (seq(info["even"]), seq(info["odd"]), b(info["even_repr_c"]), b(info["odd_repr_c"]), b(info["base"].replace(" ", "") == "[T;0]"), b(info["transparent"])))
+""" % (seq(info["even"]), seq(info["odd"]), b(info["even_repr_c"]), b(info["odd_repr_c"]), b(info["base"].replace(" ", "") == "[T;0]"), b(info["transparent"]),
+       info["mods"]["GenericArrayImplEven"]["pack"], info["mods"]["GenericArrayImplOdd"]["pack"], info["mods"]["GenericArrayImplEven"]["align"], info["mods"]["GenericArrayImplOdd"]["align"]))
     os.replace(tmp, path)
